@@ -24,6 +24,7 @@ pub fn identifiers(p: &Prog) -> Vec<String> {
         match p {
             Pat::Var(n) => add(n),
             Pat::Tuple(ps) => ps.iter().for_each(|q| pat_names(q, add)),
+            Pat::Record(fs) => fs.iter().for_each(|(_, q)| pat_names(q, add)),
         }
     }
     fn expr_names(e: &E, add: &mut dyn FnMut(&str)) {
@@ -73,6 +74,7 @@ fn ren_pat(p: &Pat, old: &str, new: &str) -> Pat {
     match p {
         Pat::Var(n) => Pat::Var(ren(n, old, new)),
         Pat::Tuple(ps) => Pat::Tuple(ps.iter().map(|q| ren_pat(q, old, new)).collect()),
+        Pat::Record(fs) => Pat::Record(fs.iter().map(|(k, q)| (k.clone(), ren_pat(q, old, new))).collect()),
     }
 }
 pub fn map_expr(e: &E, f: &mut dyn FnMut(&E) -> Option<E>) -> E {
